@@ -114,3 +114,69 @@ Lemma ex_run : exists s',
   option_map (@c_orig Z) (dget 31 (s_cells s')) = Some (prov [1; 11; 20]) /\
   option_map (@c_mat Z) (dget 31 (s_cells s')) = Some 8.
 Proof. eexists. split; [vm_compute; reflexivity|]. split; vm_compute; reflexivity. Qed.
+
+(* the same deck read AS WRITTEN (cell 11's TRCL +3 moves it to x > 3 in universe 1): x = 9 is
+   x = 4 in universe 1, in cell 11, and x = 1 in universe 2, in cell 20; the hypotheses of the
+   chain theorem hold and the chain runs *)
+Lemma ex_locatedW : LocW Z sterm Z x_empty x_inv x_sense ex_state ex_du 1 9 [1; 11; 20] true.
+Proof.
+  change true with (true && (true && true)).
+  eapply LWFill with (cl := mkCell 0 0 (TSurf (-1)) 1 0 (Some 1) (Some 5) 0 [] []) (u := 1) (c := 11);
+    [reflexivity | reflexivity | cbn; auto
+    | eapply Den_surf_val with (o := SBase 10); reflexivity |].
+  eapply LWFill with (cl := mkCell 0 0 (TSurf 2) 1 1 (Some 2) None 0 [3] []) (u := 2) (c := 20);
+    [reflexivity | reflexivity | cbn; auto
+    | eapply Den_surf_val with (o := SBase 0); reflexivity |].
+  eapply LWLeaf with (cl := mkCell 8 3 (TSurf (-3)) 1 2 None None 0 [] []);
+    [reflexivity | reflexivity | eapply Den_surf_val with (o := SBase 2); reflexivity].
+Qed.
+
+Lemma ex_ref_free : all_ref_free Z sterm ex_state.
+Proof.
+  intros k cl H. apply dget_In in H. cbn in H.
+  repeat (destruct H as [H|H]; [inversion H; reflexivity|]). destruct H.
+Qed.
+
+Lemma ex_nodup : NoDup (map fst (s_cells ex_state)).
+Proof. cbn. repeat (constructor; [cbn; intuition discriminate|]). constructor. Qed.
+
+Lemma ex_chain : exists s1 rs s2 cells3,
+  x_trcl_phase 5 (map fst (s_cells ex_state)) ex_state = Ok s1 /\
+  x_fill_phase 5 5 false false s1 = Ok (rs, s2) /\
+  inline_cells Z 9 1 1 (s_cells s2) = Ok cells3 /\
+  rs = [[27; 31; 34]] /\
+  option_map (@c_orig Z) (dget 31 cells3) = Some (prov [1; 11; 20]).
+Proof.
+  do 4 eexists. split; [vm_compute; reflexivity|]. split; [vm_compute; reflexivity|].
+  split; [vm_compute; reflexivity|]. split; vm_compute; reflexivity.
+Qed.
+
+(* ---- why the TRCL loop is only sound on tables without CellRef ----------------------------------
+   cell 1 = (CellRef 2) * (+s1) with TRCL +5, cell 2 = +s1 with TRCL +3, s1: x > 0.
+   Cell 1 is treated first: CellRef 2 is copied as cell 3 = the UNMOVED cell 2 moved by +5 and
+   cached as (2, +5) -> 3; then cell 2 is overwritten by its own TRCL.  The cache entry is now
+   stale: cell 2 at x - 5 and cell 3 at x differ at x = 6.  (No CellRef exists before FILL in
+   construct_volume_t4, so this never happens in a conversion.) *)
+Definition ex2_state : xstate :=
+  mkSt [ (1, mkCell 1 1 (TNode true [TRef 2; TSurf 1]) 1 0 None None 0 [5] []);
+         (2, mkCell 2 2 (TSurf 1) 1 0 None None 0 [3] []) ]
+       [(1, SBase 0)] 2 1 [] [].
+
+Definition ex2_after : xstate :=
+  match x_trcl_phase 5 [1; 2] ex2_state with Ok s => s | Err _ => ex2_state end.
+
+Lemma ex2_runs : x_trcl_phase 5 [1; 2] ex2_state = Ok ex2_after.
+Proof. vm_compute. reflexivity. Qed.
+
+Lemma ex2_stale : ~ cache_coherent Z sterm Z x_empty Z.eqb x_inv x_sense ex2_after.
+Proof.
+  intros H.
+  assert (D1 : Den Z sterm Z x_sense ex2_after (act Z Z x_empty x_inv 5 6) (TRef 2) false).
+  { eapply DRef with (cl := mkCell 2 2 (TSurf 4) 1 0 None None 0 [3] []); [reflexivity|].
+    eapply Den_surf_val with (o := STr 3 (SBase 0)); reflexivity. }
+  assert (D2 : Den Z sterm Z x_sense ex2_after 6 (TRef 3) true).
+  { eapply DRef with (cl := mkCell 2 2 (TSurf 2) 1 0 None None 0 [3] []); [reflexivity|].
+    eapply Den_surf_val with (o := STr 5 (SBase 0)); reflexivity. }
+  pose proof (H 2 5 3 eq_refl 6 false D1) as D3.
+  pose proof (proj1 (Den_fun Z sterm Z x_sense ex2_after 6) _ _ D2 _ D3) as E. discriminate E.
+Qed.
